@@ -85,10 +85,11 @@ CHECKS = {
     "4/C09", TB_REALS + CORR + "std::pow is a Section variable; the NaN exclusion mark of apply_masked is a boolean flag over R (a genuine NaN at binary64).",
     "Translator-generated L-BFGS code + Coq refinement + operator algebra proofs + op-sequence correspondence + exact-rational oracle"),
  "C10": C("proof",
-    "20 theorems: ring-index invariant and iterator enumeration for every add/remove/reset history within capacity (nat), Givens formulas give a rotation, Q triu(R) = A preserved by add (any number of reorthogonalisation passes), remove (Givens sweep over the rotated R) and scale_R for all histories, Anderson coefficients sum to 1 and the output is the affine combination. PARTIAL: orthonormality of Q, least-squares optimality of solve_col and the Anderson window content are checked numerically by the oracle only. "
+    "45 theorems: ring-index invariant and iterator enumeration for every add/remove/reset history within capacity, Givens formulas give a rotation, Q triu(R) = A preserved by add (any number of reorthogonalisation passes), remove (Givens sweep) and scale_R for ALL histories, orthonormality of Q, least-squares optimality of solve_col (and the exact statement for thresholded pivots), the Anderson window and the documented affine combination (coefficients sum to 1). "
+    "limited-memory-qr.hpp, ringbuffer.hpp and anderson.hpp are TRANSLATED on every run (LmqrGen.v: 51 definitions incl. the loops; LmqrGenEq.v: 134 equalities up to whole runs; run at binary64 against the implementation), and the theorems are restated for the generated code; AndersonDirection is modelled inside the PANOC/ZeroFPR loop models and compared on whole solver runs. "
     "Correspondence: the model threads its own state over whole histories at binary64.",
-    "4/C10", TB_REALS + CORR + "partial: orthonormality / least squares / window refinement not proved (oracle: |QtQ-I|, normal equations, thresholded pivots); reorthogonalisation loop under fuel.",
-    "Coq ring refinement + QR algebra + whole-history correspondence + numeric oracle"),
+    "4/C10", TB_REALS + CORR + "reorthogonalisation loop under fuel; Eigen's Givens primitives are hand-transcribed (jr_*); an exactly repeated residual (column in the span) is outside the property's precondition.",
+    "Translator-generated QR / Anderson code + Coq ring refinement + QR algebra (orthonormality, least squares) + whole-history correspondence + numeric oracle"),
  "C11": C("proof",
     "19 theorems over R for ANY symmetric linear operator B (possibly indefinite), all g, Delta>0: termination, CG invariant, |s| <= Delta, returned value = model value, <= 0, <= every point of the steepest-descent ray hence <= Cauchy point, boundary exits on the sphere, interior exit reason, roots bracket zero, zero gradient gives the zero step, Newton-TR active components = forward-backward step and value = combined decrease. "
     "NewtonTRDirection (incl. the finite-difference Hessian-vector path) is modelled as a state machine inside the PANTR loop (DirectionsTR.v, PantrDir.v): PANTRDIR_newtontr_step_is_feasible_and_beats_cauchy composes these guarantees with the loop (every direction call of every run); whole runs of the real PANTRSolver<NewtonTRDirection> agree with the model at binary64. "
